@@ -363,7 +363,13 @@ if cmdline.as_server is not None:
 # generate reports
 # - ensure UTF-8 encoding for output (not standard with Windows Python)
 #
-out_utf8 = open(sys.stdout.fileno(), mode='w', encoding='utf-8')
+# - a message from the proofreader may contain lone surrogates, which cannot
+#   be encoded: write them in escaped form
+#
+out_utf8 = open(sys.stdout.fileno(), mode='w', encoding='utf-8',
+                    errors='backslashreplace')
+if hasattr(sys.stdout, 'reconfigure'):
+    sys.stdout.reconfigure(errors='backslashreplace')
 
 if cmdline.output == 'plain' or cmdline.list_unknown:
     from yalafi.shell import gentext
